@@ -78,6 +78,10 @@ func c23alphabet(list bool) []c23reply {
 	out = append(out, c23reply{name: "failed", payload: func() []byte {
 		return c23enc(serf.VNodeKeyResponse{Result: false, Message: "boom"})
 	}})
+	// what the real handlers send when they cannot decode the request: Result=false, no message
+	out = append(out, c23reply{name: "failed-nomsg", payload: func() []byte {
+		return c23enc(serf.VNodeKeyResponse{Result: false})
+	}})
 	out = append(out, c23reply{name: "wrongtype", payload: func() []byte {
 		p := c23enc(serf.VNodeKeyResponse{Result: true, Keys: []string{a}, PrimaryKey: a})
 		p[0] = serf.VMsgKeyRequest
@@ -175,7 +179,7 @@ func init() {
 	vc.Register(&vc.Check{
 		ID:    "C23",
 		Level: "exploration",
-		Rule: "cases (aggregation): every KeyManager operation in {ListKeys, InstallKey(new), UseKey(absent locally), UseKey(present), RemoveKey(primary)} on a real node that knows k peers (k=1..3, thorough 1..4) x every multiset of k peer replies over the alphabet {ok{A}, ok{A,B} primary A, ok{A,B} primary B, ok{B}, ok with message, failed (Result=false), wrong type byte, empty payload, undecodable (cut msgpack), missing} (non-list operations: without the key-set variants) x the node's own real reply {looped back first, looped back last, lost} x {each reply once, each reply delivered twice} x {aggregator runs after every reply, after all replies}; non-trivial = at least one peer reply is not a plain success. " +
+		Rule: "cases (aggregation): every KeyManager operation in {ListKeys, InstallKey(new), UseKey(absent locally), UseKey(present), RemoveKey(primary)} on a real node that knows k peers (k=1..3, thorough 1..4) x every multiset of k peer replies over the alphabet {ok{A}, ok{A,B} primary A, ok{A,B} primary B, ok{B}, ok with message, failed (Result=false) with and without a message, wrong type byte, empty payload, undecodable (cut msgpack), missing} (non-list operations: without the key-set variants) x the node's own real reply {looped back first, looped back last, lost} x {each reply once, each reply delivered twice} x {aggregator runs after every reply, after all replies}; non-trivial = at least one peer reply is not a plain success. " +
 			"cases (reply size): a list-keys query injected into a fresh real node for every key count n (quick: 17 values in 0..60, thorough: all 0..60) x key lengths {all 16B, all 32B, mixed 16/24/32} x node-name lengths {1,64,128} x QueryResponseSizeLimit in {60,80..1400} plus the exact sizes (-1,0,+1) of the 0-, 1-, 2-, (n-1)- and n-key replies; non-trivial = the reply had to be truncated or could not be sent",
 		Assumptions: []string{
 			"peer replies come from members only and at most one distinct reply per node (a second copy of the same reply, as produced by relaying, must not be counted again)",
